@@ -14,6 +14,7 @@ INST = lambda c: ("inst", c)
 FIELD_TYPES = {
     ("_Future", "_me_done_callbacks"): ("list", "callable", "owned"),
     ("_Future", "_me_lock"): "rlock",
+    ("_Future", "_me_cancelling"): "int",
     ("MapFuture", "_map_fn"): "callable",
     ("MapFuture", "_error_fn"): OPT("callable"),
     ("MapFuture", "_delegate"): OPT("future"),
@@ -32,6 +33,7 @@ FIELD_TYPES = {
 # field -> lock field on the same object that protects it (DESIGN Appendix B)
 PROTECTED = {
     "_me_done_callbacks": "_me_lock",
+    "_me_cancelling": "_me_lock",
     # every state transition of a library future happens under its _me_lock (static FR obligations
     # `state transition ... happens under _me_lock`), so its state is stable for the holder of that lock
     "$fstate": "_me_lock", "$fresult": "_me_lock", "$fexc": "_me_lock",
@@ -39,6 +41,19 @@ PROTECTED = {
 
 # heap arrays never written after construction of their object (auto-checked by static FR)
 STABLE = {"_me_lock", "_lock", "_jobs_lock", "lock", "$code", "__self__", "$msg", "$referent"}
+
+
+LIBRARY_FUTURE_CLASSES = ["MapFuture", "FlatMapFuture", "ThrottleFuture", "RetryFuture", "PollFuture", "ProxyFuture", "OutputFuture", "NoCancelFuture"]
+
+
+def reentrant_cancel_context(engine, st, fut):
+    """Precondition of an activation nested inside this thread's own cancel() of library future `fut` (the delegate's cancel() is
+    running the delegate's done-callbacks synchronously): the future's re-entrant lock is held by this thread, a cancel() is in
+    progress (region FutLock: that is the only place where foreign code runs under the lock - static obligation OP-3)."""
+    fid = Val.id(fut.t)
+    lk = engine.typed(st, st.get("_me_lock", fid), "rlock")
+    st.held.append((Val.id(lk.t), "RLock", fid, "_me_lock"))
+    st.assume(z3.And(Val.is_intv(st.get("_me_cancelling", fid)), Val.i(st.get("_me_cancelling", fid)) >= 1))
 
 
 def metrics_object(engine, st):
@@ -60,6 +75,29 @@ def make_cfg(concurrent=True):
                           % (ev.meth, fr.func.qualname.split("more_executors._impl.")[-1] if fr.func else "?"), "BL", z3.BoolVal(False),
                           props=["C04", "C03"])
     cfg.on_opaque = on_opaque
+
+    def pre_invoke_callbacks(engine, st, fr, args, kwargs):
+        # common.py: "we must NOT have the callbacks invoked while our lock is held" - the lock is re-entrant, so this also
+        # covers activations nested inside this thread's own cancel() of the same future (the delegate's cancel() runs the
+        # delegate's done-callbacks synchronously, and those call back into the future)
+        me = args[0]
+        lk = st.get("_me_lock", Val.id(me.t))
+        return [("done-callbacks of a future are never run while this thread holds that future's own _me_lock (re-entrant holds included)",
+                 z3.And([h[0] != Val.id(lk) for h in st.held] or [z3.BoolVal(True)]), ["C04", "C02"])]
+    cfg.preconditions = {"more_executors._impl.common._Future._me_invoke_callbacks": pre_invoke_callbacks}
+
+    def futlock_inv(engine, st, owner):
+        # Region FutLock: whenever a library future's lock is free no cancel() of it is in progress.  (Assumed when the lock is
+        # taken from the free state, proved whenever it is released for good.)
+        if "fut@acquire" not in st.ghost:
+            oid = Val.id(owner.t)
+            st.ghost["fut@acquire"] = {"cancelled": st.cancelled(oid), "done": st.done(oid)}     # snapshot at the first acquisition from the free state
+        return [("no cancel() is in progress while the future's lock is free (_me_cancelling = 0)",
+                 st.get("_me_cancelling", Val.id(owner.t)) == Val.intv(z3.IntVal(0)))]
+    for c in LIBRARY_FUTURE_CLASSES:
+        cfg.region_inv[(c, "_me_lock")] = futlock_inv
+    # _me_cancelling: incremented and decremented again by cancel() (clause `balanced`, unit _Future.cancel[..., nested]); no other writer
+    cfg.reentrant_balanced = {"_me_cancelling": "_me_lock"}
     cfg.global_types = {
         ("more_executors._impl.metrics", "metrics"): metrics_object,
         ("more_executors._impl.map", "metrics"): metrics_object,
